@@ -55,6 +55,50 @@ def method(repo: Repo, cls: ClassInfo, name: str) -> FuncInfo:
     return what
 
 
+def callee_of(F: Fn, call: ast.AST | None) -> FuncInfo | None:
+    """the package function a call lands in: a module-level function (resolved through the imports) or a method
+    called on `self` / `cls` (resolved in the MRO of the calling function's class).  One level of helper following."""
+    if not isinstance(call, ast.Call):
+        return None
+    f = call.func
+    if isinstance(f, ast.Attribute) and isinstance(f.value, ast.Name) and f.value.id in ("self", "cls") and F.fi.cls is not None:
+        _, what = F.repo.lookup(F.fi.cls, f.attr)
+        return what if isinstance(what, FuncInfo) else None
+    if isinstance(f, ast.Name):
+        # a function defined inside the calling function (a local helper)
+        for n in walk_no_nested(F.fi.node):
+            if isinstance(n, (ast.FunctionDef, ast.AsyncFunctionDef)) and n.name == f.id and n is not F.fi.node:
+                cache = F.fi.__dict__.setdefault("_c05_locals", {})
+                if id(n) not in cache:
+                    cache[id(n)] = FuncInfo(F.fi.module, n, f"{F.fi.qualname}.<locals>.{n.name}", None)
+                return cache[id(n)]
+    fq = F.call_fq(call)
+    if fq and fq.startswith("werkzeug."):
+        return F.repo.try_func(fq)
+    return None
+
+
+def call_args(callee: FuncInfo, call: ast.Call) -> dict[str, ast.AST]:
+    """parameter name -> argument expression of one call (positional and keyword; `self` skipped for methods)."""
+    ps = list(callee.params)
+    f = call.func
+    if callee.cls is not None and ps and isinstance(f, ast.Attribute) and not _is_static(callee):
+        ps = ps[1:]
+    out: dict[str, ast.AST] = {}
+    for p, a in zip(ps, call.args):
+        if isinstance(a, ast.Starred):
+            break
+        out[p] = a
+    for kw in call.keywords:
+        if kw.arg is not None:
+            out[kw.arg] = kw.value
+    return out
+
+
+def _is_static(fi: FuncInfo) -> bool:
+    return "staticmethod" in fi.decorators
+
+
 def enclosing_function(repo: Repo, node: ast.AST, index: dict[int, FuncInfo]) -> FuncInfo | None:
     """FuncInfo of the innermost function containing node; nested functions get a FuncInfo of their own."""
     cur = getattr(node, "_parent", None)
@@ -135,7 +179,12 @@ def _binding_of_def(d: Def) -> Binding:
         for tg in tgts:
             p = _path_by_id(tg, d.name)
             if p is not None:
-                return Binding("value", d.value, p, d.node)
+                # `a, b = x, y` (a display of the same shape on the right): the name is bound to its own item
+                v: ast.AST = d.value
+                q = p
+                while q and isinstance(v, (ast.Tuple, ast.List)) and isinstance(tg, (ast.Tuple, ast.List)) and len(v.elts) == len(tg.elts) and not any(isinstance(x, ast.Starred) for x in [*v.elts, *tg.elts]):
+                    v, tg, q = v.elts[q[0]], tg.elts[q[0]], q[1:]
+                return Binding("value", v, q, d.node)
     return Binding("other", d.value, (), d.node)
 
 
@@ -154,6 +203,16 @@ class Sigma(t.NamedTuple):
 
 
 _UNKNOWN = object()
+_FOLDERS: dict[int, t.Any] = {}
+
+
+def _folder(repo: Repo):
+    from ..fold import Folder
+
+    f = _FOLDERS.get(id(repo))
+    if f is None:
+        f = _FOLDERS[id(repo)] = Folder(repo)
+    return f
 
 
 class GuardEval:
@@ -163,29 +222,93 @@ class GuardEval:
     * `environ["REQUEST_METHOD"]` / `environ.get("REQUEST_METHOD")` on a parameter is the method;
     * everything else is unknown, and both edges of such a test are followed."""
 
-    def __init__(self, F: Fn, status_attr: str = "status_code", method_key: str = "REQUEST_METHOD"):
+    def __init__(self, F: Fn, status_attr: str = "status_code", method_key: str = "REQUEST_METHOD", env: dict[str, t.Any] | None = None, level: int = 0, keep_outer: bool = False):
         self.F = F
         self.status_attr = status_attr
         self.method_key = method_key
+        self.env = env  # followed helper: parameter name -> value handed in by the caller (a Sigma -> value function)
+        self.level = level
+        if not keep_outer:
+            self.outer: tuple[GuardEval, Node] | None = None  # a local function: free names are read in the enclosing function at the call
         self.evaluable: set[int] = set()
         self._tests = {n.id for n in F.cfg.nodes if n.kind == "test"}
+        self._subs: dict[tuple[int, int], GuardEval] = {}
+        self._memo: dict[tuple[int, int, Sigma], t.Any] = {}
         for n in F.cfg.nodes:
             if n.kind == "test" and any(self.value(n.ast, n, s) is not _UNKNOWN for s in (Sigma(200, "GET"), Sigma(100, "HEAD"), Sigma(204, "POST"), Sigma(304, "GET"))):
                 self.evaluable.add(n.id)
 
     def _name_value(self, at: Node, ident: str, s: Sigma, depth: int) -> t.Any:
-        """a local all of whose reaching definitions are plain assignments of decidable expressions with one common value."""
+        """a local all of whose reaching definitions are plain assignments of decidable expressions with one common value;
+        a parameter of a followed helper is what the caller passed; a name that is not local is a module-level constant."""
         ds = self.F.rd.reaching(at, ident)
-        if not ds or depth > 4:
+        if depth > 4:
             return _UNKNOWN
+        if not ds:
+            if ident in ("True", "False", "None") or any(d.name == ident for n in self.F.cfg.nodes for d in self.F.rd.gen[n.id]):
+                return _UNKNOWN
+            if self.outer is not None and self.outer[0].F.rd.reaching(self.outer[1], ident):
+                return self.outer[0]._name_value(self.outer[1], ident, s, depth + 1)
+            try:
+                v = _folder(self.F.repo).expr(self.F.fi.module, ast.Name(id=ident, ctx=ast.Load()))
+            except AnalysisError:
+                return _UNKNOWN
+            if isinstance(v, (set, frozenset, list)):
+                v = tuple(v)
+            return v if isinstance(v, (int, str, tuple, range)) else _UNKNOWN
         vals = []
         for d in ds:
-            if d.kind != "assign" or d.value is None or d.node is None:
+            if d.kind == "param" and self.env is not None and ident in self.env:
+                v = self.env[ident](s)
+            elif d.kind not in ("assign", "walrus") or d.index is not None or d.value is None or d.node is None:
                 return _UNKNOWN
-            v = self.value(d.value, d.node, s, depth + 1)
+            else:
+                v = self.value(d.value, d.node, s, depth + 1)
             if v is _UNKNOWN:
                 return _UNKNOWN
             vals.append(v)
+        first = vals[0]
+        return first if all(type(v) is type(first) and v == first for v in vals) else _UNKNOWN
+
+    def _is_param(self, ident: str) -> bool:
+        if ident in self.F.fi.params:
+            return True
+        return self.outer is not None and not any(d.name == ident for n in self.F.cfg.nodes for d in self.F.rd.gen[n.id]) and self.outer[0]._is_param(ident)
+
+    def sub(self, call: ast.Call, at: Node) -> GuardEval | None:
+        """evaluator of the package helper that `call` (evaluated in node at) lands in, with the arguments bound."""
+        if self.level >= 2:
+            return None
+        key = (id(call), at.id)
+        if key not in self._subs:
+            callee = callee_of(self.F, call)
+            g = None
+            if callee is not None and callee is not self.F.fi and not any(isinstance(x, (ast.Yield, ast.YieldFrom)) for x in walk_no_nested(callee.node)):
+                env: dict[str, t.Any] = {}
+                for p, a in call_args(callee, call).items():
+                    env[p] = (lambda s, a=a: self.value(a, at, s, 1))
+                g = GuardEval.__new__(GuardEval)
+                g.outer = (self, at) if ".<locals>." in callee.qualname else None
+                g.__init__(fn_of(self.F.repo, callee), self.status_attr, self.method_key, env, self.level + 1, keep_outer=True)
+            self._subs[key] = g  # type: ignore[assignment]
+        return self._subs[key]
+
+    def call_value(self, call: ast.Call, at: Node, s: Sigma) -> t.Any:
+        """value of a call to a package helper under s: the common value of the returns reachable under s."""
+        g = self.sub(call, at)
+        if g is None:
+            return _UNKNOWN
+        cfg = g.F.cfg
+        r = g.reach(s)
+        vals = []
+        for n in cfg.nodes:
+            if n.id in r and isinstance(n.ast, ast.Return):
+                v = g.value(n.ast.value, n, s) if n.ast.value is not None else None
+                if v is _UNKNOWN:
+                    return _UNKNOWN
+                vals.append(v)
+        if not vals or any(cfg.exit.id in {x.id for x, l in n.succs if l != "exc"} and not isinstance(n.ast, ast.Return) for n in cfg.nodes if n.id in r):
+            return _UNKNOWN  # can fall off the end
         first = vals[0]
         return first if all(type(v) is type(first) and v == first for v in vals) else _UNKNOWN
 
@@ -196,15 +319,37 @@ class GuardEval:
         if isinstance(e, ast.Name):
             return self._name_value(at, e.id, s, depth)
         if isinstance(e, ast.Attribute):
-            return s.status if is_self_attr(e, self.status_attr) else U
+            if is_self_attr(e, self.status_attr) or is_self_attr(e, "_" + self.status_attr):
+                return s.status
+            if self.F.resolve(e.value) == "http.HTTPStatus":  # HTTPStatus.NO_CONTENT == 204 (an IntEnum of the stdlib)
+                import http
+
+                m = http.HTTPStatus.__members__.get(e.attr)
+                return int(m) if m is not None else U
+            return U
         if isinstance(e, ast.Subscript):
-            if isinstance(e.value, ast.Name) and e.value.id in self.F.fi.params and isinstance(e.slice, ast.Constant) and e.slice.value == self.method_key:
+            if isinstance(e.value, ast.Name) and self._is_param(e.value.id) and isinstance(e.slice, ast.Constant) and e.slice.value == self.method_key:
                 return s.method
             return U
+        if isinstance(e, ast.NamedExpr):
+            return self.value(e.value, at, s, depth)
+        if isinstance(e, ast.IfExp):
+            c = self.value(e.test, at, s, depth)
+            if c is U:
+                return U
+            return self.value(e.body if c else e.orelse, at, s, depth)
         if isinstance(e, ast.Call):
             f = e.func
-            if isinstance(f, ast.Attribute) and f.attr == "get" and isinstance(f.value, ast.Name) and f.value.id in self.F.fi.params and e.args and isinstance(e.args[0], ast.Constant) and e.args[0].value == self.method_key:
+            if isinstance(f, ast.Attribute) and f.attr == "get" and isinstance(f.value, ast.Name) and self._is_param(f.value.id) and e.args and isinstance(e.args[0], ast.Constant) and e.args[0].value == self.method_key:
                 return s.method
+            if isinstance(f, ast.Name) and f.id in ("frozenset", "set", "tuple", "list") and len(e.args) == 1 and not e.keywords:
+                v = self.value(e.args[0], at, s, depth)
+                return v if isinstance(v, tuple) else U
+            if isinstance(f, ast.Name) and f.id in ("int", "bool") and len(e.args) == 1 and not e.keywords:
+                v = self.value(e.args[0], at, s, depth)
+                return U if v is U or not isinstance(v, (int, bool)) else (int(v) if f.id == "int" else bool(v))
+            if self.sub(e, at) is not None:
+                return self.call_value(e, at, s)
             if isinstance(f, ast.Name) and f.id == "range" and not e.keywords and 1 <= len(e.args) <= 3:
                 vs = [self.value(a, at, s, depth) for a in e.args]
                 if any(v is U or not isinstance(v, int) for v in vs):
@@ -236,15 +381,19 @@ class GuardEval:
             v = self.value(e.operand, at, s, depth)
             return U if v is U else (not v)
         if isinstance(e, ast.BoolOp):
-            # short-circuit semantics: the first deciding operand decides, unknown operands before it make the result unknown
+            # truth value only: a decided operand that settles the connective settles it whatever the undecided ones are
+            # (conditions are side-effect free reads here); otherwise undecided operands leave it undecided
             is_and = isinstance(e.op, ast.And)
-            for x in e.values:
-                v = self.value(x, at, s, depth)
-                if v is U:
-                    return U
-                if bool(v) != is_and:
-                    return bool(v)
-            return is_and
+            vs = [self.value(x, at, s, depth) for x in e.values]
+            if not any(v is U for v in vs):
+                for v in vs[:-1]:  # exact value semantics
+                    if bool(v) != is_and:
+                        return v
+                return vs[-1]
+            for v in vs:
+                if isinstance(v, bool) and v != is_and:
+                    return v
+            return U
         if isinstance(e, ast.Compare):
             left = self.value(e.left, at, s, depth)
             if left is U:
@@ -279,6 +428,10 @@ class GuardEval:
                 left = right
             return True
         return U
+
+    def truth(self, e: ast.AST, at: Node, s: Sigma) -> bool | None:
+        v = self.value(e, at, s)
+        return None if v is _UNKNOWN else bool(v)
 
     def reach(self, s: Sigma, start: Node | t.Iterable[Node] | None = None, avoid_nodes: t.Iterable[Node] = ()) -> set[int]:
         """ids of the nodes reachable under valuation s; tests that s decides contribute only the decided edge."""
@@ -393,3 +546,122 @@ def isinstance_atom(e: ast.AST) -> tuple[ast.AST, set[str]] | None:
             names.add(d.rsplit(".", 1)[-1])
         return e.args[0], names
     return None
+
+
+# ---------------------------------------------------------------------
+# `match` statements: the CFG builder of the engine refuses them, so the simple forms are rewritten (in the parsed tree of
+# the scratch/loaded repository, never on disk) into the if/elif chain they mean before any CFG is built.
+
+
+def _pattern_test(pat: ast.AST, subj: ast.expr) -> tuple[ast.expr | None, list[tuple[str, ast.expr]]] | None:
+    """(condition or None for 'always', [(captured name, value)]) of a pattern; None when the pattern is not modelled."""
+
+    def ld() -> ast.expr:
+        return ast.parse(ast.unparse(subj), mode="eval").body
+
+    M = ast  # the Match* node classes exist on every supported interpreter (3.10+)
+    if isinstance(pat, M.MatchValue):
+        return ast.Compare(left=ld(), ops=[ast.Eq()], comparators=[pat.value]), []
+    if isinstance(pat, M.MatchSingleton):
+        return ast.Compare(left=ld(), ops=[ast.Is()], comparators=[ast.Constant(value=pat.value)]), []
+    if isinstance(pat, M.MatchClass) and not pat.patterns and not pat.kwd_patterns:
+        return ast.Call(func=ast.Name(id="isinstance", ctx=ast.Load()), args=[ld(), pat.cls], keywords=[]), []
+    if isinstance(pat, M.MatchAs):
+        if pat.pattern is None:
+            return None, ([(pat.name, ld())] if pat.name else [])
+        inner = _pattern_test(pat.pattern, subj)
+        if inner is None:
+            return None
+        return inner[0], inner[1] + ([(pat.name, ld())] if pat.name else [])
+    if isinstance(pat, M.MatchOr):
+        tests = []
+        for alt in pat.patterns:
+            r = _pattern_test(alt, subj)
+            if r is None or r[1]:
+                return None
+            if r[0] is None:
+                return None, []
+            tests.append(r[0])
+        return ast.BoolOp(op=ast.Or(), values=tests), []
+    return None
+
+
+def _rewrite_match(st: ast.AST, counter: list[int]) -> list[ast.stmt] | None:
+    subj = st.subject  # type: ignore[attr-defined]
+    pre: list[ast.stmt] = []
+    if not isinstance(subj, ast.Name):
+        counter[0] += 1
+        tmp = f"_match_subject_{counter[0]}"
+        pre.append(ast.Assign(targets=[ast.Name(id=tmp, ctx=ast.Store())], value=subj))
+        subj = ast.Name(id=tmp, ctx=ast.Load())
+    chain: ast.If | None = None
+    last: ast.If | None = None
+    for case in st.cases:  # type: ignore[attr-defined]
+        r = _pattern_test(case.pattern, subj)
+        if r is None:
+            return None
+        test, caps = r
+        body = [ast.Assign(targets=[ast.Name(id=n, ctx=ast.Store())], value=v) for n, v in caps] + list(case.body)
+        if case.guard is not None:
+            # the guard reads the captures: they are plain aliases of the subject, so it is evaluated on the subject
+            g = ast.parse(ast.unparse(case.guard), mode="eval").body
+            names = {n: v for n, v in caps}
+
+            class Sub(ast.NodeTransformer):
+                def visit_Name(self, n: ast.Name):  # noqa: N802
+                    return ast.parse(ast.unparse(names[n.id]), mode="eval").body if n.id in names and isinstance(n.ctx, ast.Load) else n
+
+            g = Sub().visit(g)
+            test = g if test is None else ast.BoolOp(op=ast.And(), values=[test, g])
+        if test is None:
+            test = ast.Constant(value=True)
+        node = ast.If(test=test, body=body, orelse=[])
+        if chain is None:
+            chain = node
+        else:
+            assert last is not None
+            last.orelse = [node]
+        last = node
+    if chain is None:
+        return None
+    return pre + [chain]
+
+
+def desugar_match(repo: Repo) -> int:
+    """rewrite the modelled `match` statements of every loaded module into if/elif chains; returns how many."""
+    done = 0
+    counter = [0]
+    for m in repo.modules.values():
+        if "match " not in m.source:
+            continue
+        changed = True
+        while changed:
+            changed = False
+            for parent in ast.walk(m.tree):
+                for field in ("body", "orelse", "finalbody"):
+                    seq = getattr(parent, field, None)
+                    if not isinstance(seq, list):
+                        continue
+                    for i, st in enumerate(seq):
+                        if st.__class__.__name__ == "Match":
+                            new = _rewrite_match(st, counter)
+                            if new is None:
+                                continue
+                            for n in new:
+                                ast.copy_location(n, st)
+                                ast.fix_missing_locations(n)
+                            seq[i : i + 1] = new
+                            for n in new:
+                                n._parent = parent  # type: ignore[attr-defined]
+                                for x in ast.walk(n):
+                                    for ch in ast.iter_child_nodes(x):
+                                        ch._parent = x  # type: ignore[attr-defined]
+                            done += 1
+                            changed = True
+                            break
+                    if changed:
+                        break
+                if changed:
+                    break
+    return done
+
